@@ -11,7 +11,8 @@ import Plenc.Build
     scanner, but it stops silently at the first malformed pair and unquotes only
     the value it returns.
   * main.go: `fieldName`, `extractTags`, `hasPlencTag`, `plencValue`,
-    `isExcluded`, `quote` and the two passes of `rewrite`.
+    `isExcluded`, `quote`, `appendTag` (for back-quoted literals) and the two
+    passes of `rewrite` with the `maxFieldIndex` test.
 
   Text is a Lean `String` (a sequence of Unicode scalar values) where Go has a
   byte string.  The Go scanners look at single bytes, but every byte they test
